@@ -23,3 +23,9 @@ package tools
 //@   ensures  result == (exists i: int :: 0 <= i && i < len(haystack) && eqfold(haystack[i], needle))
 //@   loop 0:
 //@     invariant none: forall i: int :: 0 <= i && i <= $i ==> !eqfold(haystack[i], needle)
+//
+//@ func ItemInList
+//@   modifies nothing
+//@   ensures  result == (exists i: int :: 0 <= i && i < len(haystack) && haystack[i] == needle)
+//@   loop 0:
+//@     invariant none: forall i: int :: 0 <= i && i <= $i ==> haystack[i] != needle
